@@ -57,6 +57,13 @@ def step (st : St) (bl : Block) : St × List String :=
       | none => st
     let st := setOpen st who (some { idx := idx, frames := 0 })
     (st, (startSteps idx).filterMap (showSys (pre who)) ++ ["ret ok"])
+  | ["ss", a, b'] =>
+    -- two main-directory recorders started back to back: two fresh names
+    let i1 := st.nextMain
+    let i2 := st.nextMain + 1
+    let st := { st with nextMain := st.nextMain + 2 }
+    let st := setOpen (setOpen st a (some { idx := i1, frames := 0 })) b' (some { idx := i2, frames := 0 })
+    (st, (startSteps i1 ++ startSteps i2).filterMap (showSys "") ++ ["ret ok", "ret ok"])
   | ["h", who] =>
     -- start whose header cannot be written: uses up a name, leaves a closed partial T, opens nothing
     let isC := who == "c"
